@@ -149,6 +149,9 @@ GoodArgs(cls) == GoodArgsTable[cls]                     \* every field a valid t
 RepArgs(cls) == CHOOSE p \in GoodArgs(cls) : Cross(cls, p)
 CtorExc(cls, p) ==
   IF \E f \in FieldNames(cls) : KindOf(cls, f) = "oper" /\ p[f] \notin ValidTok("oper") THEN "TypeError" ELSE "ValueError"
+(* a compound made without meta/visual takes its first member's (the member tokens regP1 / regS1 carry a label and a colour) *)
+MemberKv(tok, which) == IF tok \in {"regP1", "regS1"} THEN (IF which = "meta" THEN Put(Empty, "label", "member") ELSE Put(Empty, "color", "cyan")) ELSE Empty
+InitKv(cls, p, which) == IF cls \in {"CompoundPix", "CompoundSky"} THEN MemberKv(p["region1"], which) ELSE Empty
 Construct(cls, s) ==
   /\ "construct" \in Acts /\ cls \in Classes /\ s \in Free /\ s = CHOOSE x \in Free : \A y \in Free : x <= y
   /\ ("construct_first_only" \in Acts => s = 1)
@@ -159,7 +162,7 @@ Construct(cls, s) ==
      IF ParValid(cls, p)
        THEN Step(a, "ok",
                  [heap EXCEPT ![s] = [cls |-> cls, par |-> p, meta |-> NewDict, visual |-> NewDict + 1]],
-                 dicts \o <<[which |-> "meta", kv |-> Empty], [which |-> "visual", kv |-> Empty]>>)
+                 dicts \o <<[which |-> "meta", kv |-> InitKv(cls, p, "meta")], [which |-> "visual", kv |-> InitKv(cls, p, "visual")]>>)
        ELSE Reject(a, CtorExc(cls, p))
 
 (* ---- attribute assignment: descriptor __set__ = Validate ; Store ---- *)
@@ -238,6 +241,15 @@ CopyWith(s, t) ==
           THEN Step(a, "ok", [heap EXCEPT ![t] = [heap[s] EXCEPT !.par = newpar, !.meta = NewDict, !.visual = NewDict + 1]],
                     dicts \o <<dicts[heap[s].meta], dicts[heap[s].visual]>>)
           ELSE Reject(a, "ValueError")
+(* copy(meta=<dict>) / copy(visual=<dict>): the named dict is replaced by a fresh one with the given contents, the other is copied *)
+CopyWithDict(s, t) ==
+  /\ "copywithdict" \in Acts /\ s \in Live /\ t \in Free /\ t = (CHOOSE x \in Free : \A y \in Free : x <= y)
+  /\ \E which \in {"meta", "visual"}, tok \in {"dict_ok", "dict_empty"} :
+     LET a == [a |-> "copywithdict", slot |-> s, to |-> t, which |-> which, value |-> tok]
+         goodkey == IF which = "meta" THEN "label" ELSE "color"
+         given == [which |-> which, kv |-> IF tok = "dict_ok" THEN Put(Empty, goodkey, "v1") ELSE Empty]
+     IN Step(a, "ok", [heap EXCEPT ![t] = [heap[s] EXCEPT !.meta = NewDict, !.visual = NewDict + 1]],
+             dicts \o (IF which = "meta" THEN <<given, dicts[heap[s].visual]>> ELSE <<dicts[heap[s].meta], given>>))
 (* a region of another class with the same parameter names and values (Ellipse/Rectangle and their annuli) *)
 Sibling(cls) == CASE cls = "EllipsePix" -> "RectanglePix" [] cls = "RectanglePix" -> "EllipsePix"
                   [] cls = "EllipseSky" -> "RectangleSky" [] cls = "RectangleSky" -> "EllipseSky"
@@ -262,6 +274,7 @@ Moves ==
   \/ \E s \in Slots, t \in Slots : Copy(s, t)
   \/ \E s \in Slots, t \in Slots : CopyWith(s, t)
   \/ \E s \in Slots, t \in Slots : CopyAs(s, t)
+  \/ \E s \in Slots, t \in Slots : CopyWithDict(s, t)
   \/ \E s \in Slots : Discard(s)
 Next == /\ depth < MaxDepth
         /\ ~(act.a = "construct" /\ out # "ok")         \* a refused construction ends the history
@@ -287,6 +300,13 @@ CopyWithDiffers == act.a = "copywith" /\ out = "ok" =>
                      /\ c.cls = o.cls /\ c.par = [o.par EXCEPT ![act.field] = act.value]
                      /\ dicts[c.meta].kv = dicts[o.meta].kv /\ dicts[c.visual].kv = dicts[o.visual].kv
                      /\ (Eq(o, c) <=> SameValue(o.par[act.field], act.value))
+CopyWithDictDiffers == act.a = "copywithdict" /\ out = "ok" =>
+                     LET o == heap[act.slot]  c == heap[act.to]
+                         want == IF act.value = "dict_ok" THEN Put(Empty, IF act.which = "meta" THEN "label" ELSE "color", "v1") ELSE Empty IN
+                     /\ c.cls = o.cls /\ c.par = o.par /\ c.meta # o.meta /\ c.visual # o.visual
+                     /\ (IF act.which = "meta" THEN dicts[c.meta].kv = want /\ dicts[c.visual].kv = dicts[o.visual].kv
+                                                ELSE dicts[c.visual].kv = want /\ dicts[c.meta].kv = dicts[o.meta].kv)
+                     /\ (Eq(o, c) <=> (IF act.which = "meta" THEN dicts[o.meta].kv ELSE dicts[o.visual].kv) = want)
 (* mutating one object never shows in another *)
 Independent == act.a \in {"assign", "meta", "metaassign"} /\ depth > 0 =>
                  \A s \in Slots \ {act.slot} : /\ heap[s] = pre.heap[s]
